@@ -420,6 +420,7 @@ func RunChild(in In, logPath string) {
 			atomic.StoreInt32(&f.stalled, 0)
 			f.gate <- errors.New("replica went away")
 			c.labSend(r, false)
+			c.lab1("GSpawn", 14, r) // the drainer starts before the write lock is requested
 			c.state[r] = 2
 			if c.pendingSend {
 				// delete + close need the write lock: they happen after the sender's iteration
@@ -448,6 +449,14 @@ func RunChild(in In, logPath string) {
 				continue
 			}
 			c.commit()
+		case "behindfail":
+			if c.pendingSend || c.state[r] != 1 || atomic.LoadInt32(&f.inSend) != 1 {
+				continue
+			}
+			c.behindFail(r, op.N)
+			if c.aborted {
+				goto finish
+			}
 		case "flood":
 			if c.pendingSend || c.state[r] != 1 || atomic.LoadInt32(&f.inSend) != 1 {
 				continue
@@ -576,6 +585,163 @@ func (c *c26Child) commit() {
 	if !c.pendingSend {
 		c.lab0("SEnd", 3)
 	}
+	c.drainStreams()
+}
+
+// behindFail: replica r sits in stream.Send until its channel is full and the sender goroutine is blocked on that
+// channel (holding the read lock); a few more TGs pile up behind; THEN r's stream.Send fails, i.e. the replica
+// disconnects.  The master must resume by itself: the leaving stream's drainer frees the sender, the sender finishes
+// its iteration, the stream takes the write lock, unregisters, closes and returns, and the healthy replicas get
+// everything.  A deadline of 4 s decides; a master that stays blocked here is NOT the stalled-replica class (the slow
+// replica is gone) but a failure of the property's "without ... blocking" clause.
+func (c *c26Child) behindFail(r int, extra int) {
+	f := c.st[r]
+	if extra <= 0 {
+		extra = 2
+	}
+	capC := 500
+	if ch, ok := c.srv.StreamChannels[f.addr]; ok {
+		capC = cap(ch)
+	}
+	for len(c.sent[r])-len(f.got())-1 < capC {
+		c.commit()
+		if c.aborted {
+			return
+		}
+	}
+	// this TG's send to r's full channel blocks the sender goroutine
+	t := c.nCommit
+	var b [8]byte
+	binary.BigEndian.PutUint64(b[:], uint64(t))
+	c.base = c.nLogged()
+	c.snd.Send(b[:])
+	c.nCommit++
+	c.lab0("Commit", 0)
+	c.lab0("SRecv", 1)
+	c.lab0("SLock", 12)
+	if !waitFor(func() bool {
+		c.ctl.mu.Lock()
+		defer c.ctl.mu.Unlock()
+		for _, a := range c.ctl.order[c.base:] {
+			if a == f.addr {
+				return true
+			}
+		}
+		return false
+	}, c26Wait) {
+		c.fail("sender did not reach the stalled replica's channel")
+		return
+	}
+	c.ctl.mu.Lock()
+	order := append([]string{}, c.ctl.order[c.base:]...)
+	c.ctl.mu.Unlock()
+	visited := map[string]bool{}
+	for _, a := range order {
+		c.lab1("SNext", 2, c.keyOfAddr(a))
+		visited[a] = true
+		if a == f.addr {
+			break
+		}
+		c.lab0("SSend", 4)
+		if r2, ok := c.m[a]; ok {
+			c.sent[r2] = append(c.sent[r2], t)
+		}
+	}
+	c.drainStreams()
+	for i := 0; i < extra; i++ {
+		var b2 [8]byte
+		binary.BigEndian.PutUint64(b2[:], uint64(c.nCommit))
+		c.snd.Send(b2[:])
+		c.nCommit++
+		c.lab0("Commit", 0)
+	}
+	c.tags["behind-then-disconnects"] = true
+	base := c.base + len(order)
+	// ---- the replica disconnects
+	if !c.heldLbl[r] {
+		c.lab1("GRecv", 7, r)
+	}
+	c.heldLbl[r] = false
+	atomic.StoreInt32(&f.stalled, 0)
+	f.gate <- errors.New("replica went away")
+	c.labSend(r, false)
+	c.lab1("GSpawn", 14, r)
+	c.state[r] = 2
+	healthy := func() (bool, string) {
+		for r2, f2 := range c.st {
+			if c.state[r2] == 1 && atomic.LoadInt32(&f2.stalled) == 0 {
+				if n := len(f2.got()); n != c.nCommit-c.connAt[r2] {
+					return false, fmt.Sprintf("healthy replica %d has received %d of %d transaction groups", r2, n, c.nCommit-c.connAt[r2])
+				}
+			}
+		}
+		return true, ""
+	}
+	if !waitFor(func() bool { ok, _ := healthy(); return ok && atomic.LoadInt32(&f.done) == 1 }, 4*time.Second) {
+		_, why := healthy()
+		if atomic.LoadInt32(&f.done) != 1 {
+			why = "GetWALStream of the disconnected replica did not return; " + why
+		}
+		c.holds, c.detail = false, fmt.Sprintf("replica %d was a full channel behind and then disconnected, but 4 s later the master is still blocked: %s", r, why)
+		c.class = ""
+		c.tags["master-blocked-after-disconnect"] = true
+		c.aborted = true
+		return
+	}
+	// ---- reconstruct what the sender did from its log points: rest of the blocked iteration, then one iteration per queued TG
+	c.lab1("GDrain", 13, r)
+	c.lab0("SSend", 4)
+	c.ctl.mu.Lock()
+	logs := append([]string{}, c.ctl.order[base:]...)
+	c.ctl.mu.Unlock()
+	removed := false
+	cleanup := func() {
+		if !removed {
+			removed = true
+			c.lab1("GDelB", 9, r)
+			c.lab1("GDelE", 10, r)
+			c.lab1("GCloseL", 11, r)
+			delete(c.m, f.addr)
+		}
+	}
+	cur := t
+	i := 0
+	for {
+		for i < len(logs) && !visited[logs[i]] {
+			a := logs[i]
+			visited[a] = true
+			c.lab1("SNext", 2, c.keyOfAddr(a))
+			if a == f.addr {
+				c.lab1("GDrain", 13, r)
+			}
+			c.lab0("SSend", 4)
+			if r2, ok := c.m[a]; ok && c.state[r2] == 1 {
+				c.sent[r2] = append(c.sent[r2], cur)
+			}
+			i++
+		}
+		c.lab0("SEnd", 3)
+		cur++
+		if cur >= c.nCommit {
+			break
+		}
+		// does the next iteration still see the leaving replica?  (it does iff its address is logged before an address repeats)
+		sees := false
+		seen := map[string]bool{}
+		for j := i; j < len(logs) && !seen[logs[j]]; j++ {
+			seen[logs[j]] = true
+			if logs[j] == f.addr {
+				sees = true
+			}
+		}
+		if !sees {
+			cleanup()
+		}
+		c.lab0("SRecv", 1)
+		c.lab0("SLock", 12)
+		visited = map[string]bool{}
+	}
+	cleanup()
 	c.drainStreams()
 }
 
